@@ -70,7 +70,7 @@ def writeItems : List Item → List Nat → List (List Nat) → Out Bytes
   | .blocks _ :: _, _, _ => .err
   | .bad _ :: _, _, _ => .err
 
-def elemSize (ws : List Nat) : Nat := ws.foldl (· + ·) 0
+def elemSize (ws : List Nat) : Nat := ws.sum
 
 /-- `wireSize` of a struct value with the given layout -/
 def sizeItems : List Item → List (List Nat) → Nat
